@@ -8,6 +8,7 @@ use vstd::prelude::*;
 use crate::verif_spec::*;
 use crate::spec_curve::*;
 use crate::ext_dalek::*;
+use crate::verif_types::BytesSpec;
 
 verus! {
 
@@ -234,6 +235,27 @@ pub fn shim_slice_as_array64_mut(s: &mut [u8]) -> (r: &mut [u8; 64])
         final(s)@ == final(r)@,
 {
     <&mut [u8; 64]>::try_from(s).unwrap()
+}
+
+/// R2 shim for `Vec::from(slice)` (std `impl From<&[T]> for Vec<T>`: a copy of the slice)
+#[verifier::external_body]
+pub fn shim_vec_from_slice(s: &[u8]) -> (v: Vec<u8>)
+    ensures
+        v@ == s@,
+{
+    Vec::from(s)
+}
+
+// ---- dryoc container trait `ResizableBytes` --------------------------------------------------------
+/// R2 shim for `data.resize(new_len, value)` through dryoc's trait `ResizableBytes`. The trait has no `Bytes`
+/// supertrait, so no trait-level contract can relate it to `bview()`; ASSUMED here for every implementor: afterwards
+/// the container holds exactly `new_len` bytes (dryoc's impls for Vec<u8> / HeapBytes forward to std `Vec::resize`).
+#[verifier::external_body]
+pub fn shim_bytes_resize<B: crate::types::Bytes + crate::types::ResizableBytes>(data: &mut B, new_len: usize, value: u8)
+    ensures
+        final(data).bview().len() == new_len,
+{
+    data.resize(new_len, value)
 }
 
 } // verus!
